@@ -176,7 +176,7 @@ class StageSampler:
         pass
 
 
-def mutate_settings(cfg, rnd, cov, clean=None, p_nodes=0.6):
+def mutate_settings(cfg, rnd, cov, clean=None, p_nodes=0.6, p_repeat_scan=0.3):
     """generated settings for every scripted agent of a shipped scenario"""
     cfg = copy.deepcopy(cfg)
     for a in cfg["agents"]:
@@ -228,6 +228,17 @@ def mutate_settings(cfg, rnd, cov, clean=None, p_nodes=0.6):
             for stg, o in (s.get("kill_chain") or {}).items():
                 if isinstance(o, dict) and "probability" in o:
                     o["probability"] = rnd.choice([1, 1, 1, 0.5, 0.8])
+            prop = (s.get("kill_chain") or {}).get("PROPAGATE")
+            if t == "tap-001" and isinstance(prop, dict) and len(prop.get("network_addresses") or []) >= 3 and rnd.random() < p_repeat_scan:
+                # the documented alternative: keep scanning (in random order) once every listed network was swept without finding the
+                # target - the network that contains the target is left out so that this really happens, and turns come quickly
+                prop["network_addresses"] = list(prop["network_addresses"][:-1])
+                prop["repeat_scan"], prop["scan_attempts"], prop["probability"] = True, 60, 1
+                s["frequency"], s["variance"], s["start_step"] = rnd.choice([1, 2]), 0, rnd.randint(1, 2)
+                for stg, o in (s.get("kill_chain") or {}).items():
+                    if isinstance(o, dict) and "probability" in o:
+                        o["probability"] = 1
+                cov.inc("tap_repeat_scan")
         a["agent_settings"] = s
     return cfg
 
